@@ -197,7 +197,12 @@ func dumpCoins(cs []*Coin, tip uint64) string {
 func propC01(t *rapid.T) {
 	useProfile(profSmall)
 	nW := rapid.IntRange(1, 3).Draw(t, "wallets")
+	if rapid.IntRange(0, 3).Draw(t, "withInternal") == 0 {
+		// wallets restored with internal (change-branch) addresses, which receive coins like the others
+		worldInternalHint = uint32(rapid.IntRange(1, 2).Draw(t, "internalIndex"))
+	}
 	w := newWorld(t, nW, 20, nil)
+	worldInternalHint = 0
 	defer w.close()
 	audits := 0
 	t.Repeat(map[string]func(*rapid.T){
